@@ -14,5 +14,8 @@ fn main(){
     println!("Definition std_lower_tbl : list (N * list N) := [\n  {}].", fmt(&lower));
     println!("Definition unicase_fold_tbl : list (N * list N) := [\n  {}].", fmt(&folds));
     println!("Definition std_upper_rng : list (N * N) := [\n  {}].", ranges.iter().map(|(a,b)| format!("({},{})",a,b)).collect::<Vec<_>>().join(";\n  "));
+    // the model's table look-up stops at the first larger key: the tables must strictly ascend (checked by the kernel)
+    println!("Fixpoint keys_ascend_t (t : list (N * list N)) : bool := match t with (k1, _) :: (((k2, _) :: _) as r) => (k1 <? k2) && keys_ascend_t r | _ => true end.");
+    println!("Lemma tables_ascend : keys_ascend_t std_lower_tbl = true /\\ keys_ascend_t unicase_fold_tbl = true. Proof. split; vm_compute; reflexivity. Qed.");
     eprintln!("lower={} fold={} ranges={}", lower.len(), folds.len(), ranges.len());
 }
